@@ -155,8 +155,11 @@ func runE2E(c *e2eCase) *e2eOut {
 		out.Err += "read: " + err.Error()
 		return out
 	}
-	for _, s := range fr.SeriesAt(key) {
-		for _, v := range telem.Unmarshal[telem.TimeStamp](s) {
+	for k, s := range fr.Entries() {
+		if k != key {
+			continue
+		}
+		for _, v := range telem.UnmarshalSeries[telem.TimeStamp](s) {
 			out.Read = append(out.Read, int64(v/telem.SecondTS))
 		}
 	}
